@@ -35,6 +35,7 @@ pub struct ParserState<'a> {
     pub(crate) a2mlspec: Vec<A2mlTypeSpec>,
     // current nesting depth of blocks inside of uninterpreted IF_DATA
     pub(crate) ifdata_nesting_depth: usize,
+    pub(crate) ifdata_empty_elements: usize,
 }
 
 /// describes the current parser context, giving the name of the current element and its file and line number
@@ -303,6 +304,7 @@ impl<'a> ParserState<'a> {
             file_ver: A2lVersion::V1_7_1,
             a2mlspec: Vec::new(),
             ifdata_nesting_depth: 0,
+            ifdata_empty_elements: 0,
         }
     }
 
